@@ -28,8 +28,91 @@ fn headers_of(cenc: Option<&str>, ctype: Option<&str>) -> Vec<Header> {
     h
 }
 
+fn emit_case(emit: &mut dyn FnMut(Value), body: &[u8], enc: &str, level: u32, window: u32, pflush: &[usize], cenc: &str, ctype: Option<&str>, filters: &[FSpec], scheds: &[Vec<usize>], shape: &str) {
+    let z = compress(enc, level, window, pflush, body).unwrap_or_else(|| body.to_vec());
+    let mut flush: Vec<Value> = Vec::new();
+    let mut scheds2: Vec<Vec<usize>> = Vec::new();
+    for cuts in scheds {
+        let cuts: Vec<usize> = cuts.iter().cloned().filter(|c| *c <= z.len()).collect();
+        let chunks = split_at_cuts(&z, &cuts);
+        match decoder_outputs(enc, &chunks) {
+            Ok((outs, end)) => {
+                let mut all = outs;
+                all.push(end);
+                flush.push(json!(flush_cuts(&all)));
+            }
+            Err(_) => flush.push(json!(null)),
+        }
+        scheds2.push(cuts);
+    }
+    emit(json!({
+        "body": hex(body), "enc": enc, "level": level, "window": window, "pflush": pflush, "cenc": cenc, "ctype": ctype,
+        "filters": filters.iter().map(|f| f.to_json()).collect::<Vec<_>>(),
+        "scheds": scheds_json(&scheds2), "flush": flush, "shape": shape,
+    }));
+}
+
+/// schedules given as functions of the length of the compressed stream
+fn sched_single() -> Vec<usize> {
+    vec![]
+}
+
+fn gen_fixed(rng: &mut Prng, emit: &mut dyn FnMut(Value)) {
+    let h = |a: &str, path: &[&str], sel: Option<&str>, v: &str| FSpec::Html { action: a.to_string(), path: path.iter().map(|x| x.to_string()).collect(), sel: sel.map(|x| x.to_string()), value: v.to_string() };
+    let t = |a: &str, c: &str| FSpec::Text { action: a.to_string(), content: c.to_string() };
+    // 1. LARGE bodies: one compressed chunk inflates to far more than the codec's window (32 KiB for deflate).
+    //    A highly compressible and a poorly compressible blob inside a small document; delivered as a single chunk,
+    //    as 4 KiB chunks, and one byte at a time for a prefix of the stream only.
+    let lorem = "lorem ipsum dolor sit amet, consectetur adipiscing elit ";
+    let mut noise = |n: usize| -> String {
+        const AB: &[u8] = b"ABCDEFGHIJKLMNOPQRSTUVWXYZabcdefghijklmnopqrstuvwxyz0123456789+/ .,;:-_";
+        (0..n).map(|_| AB[rng.below(AB.len())] as char).collect()
+    };
+    let big: Vec<(&str, u32, String, Vec<FSpec>)> = vec![
+        ("gzip", 6, format!("<html><head><title>t</title></head><body><div>{}</div><p>x</p></body></html>", lorem.repeat(150 * 1024 / lorem.len())),
+            vec![h("append_child", &["html", "body"], None, "<ins-0>v0</ins-0>"), t("append_text", "\u{a7}T1\u{a7}")]),
+        ("gzip", 1, format!("<html><body><p>{}</p><div>{}</div></body></html>", noise(200 * 1024), "z"),
+            vec![h("prepend_child", &["html", "body", "div"], None, "<ins-0/>")]),
+        ("deflate", 9, format!("<html><body>{}<div>{}</div>{}</body></html>", noise(60 * 1024), lorem.repeat(40 * 1024 / lorem.len()), noise(20 * 1024)),
+            vec![t("prepend_text", "\u{a7}T0\u{a7}"), h("replace", &["html", "body", "div"], None, "<ins-1>r</ins-1>")]),
+        ("br", 5, format!("<html><body><p>{}</p>{}</body></html>", lorem.repeat(100 * 1024 / lorem.len()), noise(8 * 1024)),
+            vec![h("append_child", &["html", "body", "p"], None, "<ins-0>v0</ins-0>"), t("append_text", "\u{a7}T1\u{a7}")]),
+        ("deflate", 6, "a".repeat(300 * 1024), vec![t("append_text", "\u{a7}T0\u{a7}")]),
+    ];
+    for (enc, level, body, filters) in big {
+        let z = compress(enc, level, 22, &[], body.as_bytes()).unwrap();
+        let mut scheds: Vec<Vec<usize>> = vec![sched_single()];
+        if z.len() > 4096 {
+            scheds.push((1..=(z.len() - 1) / 4096).map(|i| i * 4096).collect());
+        } else {
+            scheds.push(vec![z.len() / 2]);
+        }
+        scheds.push((1..=48.min(z.len())).collect());
+        emit_case(emit, body.as_bytes(), enc, level, 22, &[], enc, Some("text/html"), &filters, &scheds, "large");
+    }
+    // 2. END-OF-STREAM paths: chains that still yield bytes at end() — text appended at end, a held partial tag, a held
+    //    text ending with '<', a body that decodes to nothing, text filters whose content is only emitted by end().
+    let bodies: &[&str] = &["", "<html><body>abc<div", "<html><body><p>x</p>tail<", "x", "<html><body><div>d</div></body></html>"];
+    let fsets: Vec<Vec<FSpec>> = vec![
+        vec![t("append_text", "\u{a7}T0\u{a7}")],
+        vec![h("append_child", &["html", "body"], None, "<ins-0>v0</ins-0>"), t("append_text", "\u{a7}T1\u{a7}")],
+        vec![t("prepend_text", "\u{a7}T0\u{a7}")],
+        vec![h("replace", &["html", "body", "div"], Some("*"), "<ins-0/>"), h("append_child", &["html"], None, "<ins-1/>")],
+        vec![t("replace_text", "\u{a7}T0\u{a7}"), t("append_text", "\u{a7}T1\u{a7}")],
+    ];
+    for (i, b) in bodies.iter().enumerate() {
+        for (j, f) in fsets.iter().enumerate() {
+            let enc = ENCODINGS[(i + j) % 3];
+            let z = compress(enc, 6, 22, &[], b.as_bytes()).unwrap();
+            let scheds: Vec<Vec<usize>> = vec![sched_single(), (1..z.len()).collect(), (1..=(z.len().max(1) - 1) / 7).map(|k| k * 7).collect(), vec![0, z.len()]];
+            emit_case(emit, b.as_bytes(), enc, 6, 22, &[], enc, None, f, &scheds, "end-paths");
+        }
+    }
+}
+
 fn gen(args: &Args, emit: &mut dyn FnMut(Value)) {
     let mut rng = seeded(args.seed);
+    gen_fixed(&mut rng, emit);
     for n in 0..args.n {
         // bodies: valid UTF-8 documents; raw-text / comments are rarer than in C03 (D4 is C03's finding) but present
         let (mut body, shape) = gen_body(&mut rng);
@@ -242,6 +325,14 @@ fn run(case: &Value) -> Obs {
         if *p != body {
             o.tags.push("acted".to_string());
         }
+    }
+    if let Some(shape) = case.get("shape").and_then(|s| s.as_str()) {
+        if shape == "large" || shape == "end-paths" {
+            o.tags.push(format!("shape:{shape}"));
+        }
+    }
+    if body.len() > 64 * 1024 {
+        o.tags.push("body>64KiB".to_string());
     }
     if !pflush.is_empty() {
         o.tags.push("producer-flush".to_string());
